@@ -127,7 +127,7 @@ func (h *HeapSnap) getHeap(name string, sort Sort) *Term {
 func (x *Exec) havocExcept(st *State, preserved func(name string) bool) {
 	prev := st.snap()
 	st.gen = x.nextGen()
-	st.heap = map[string]*Term{}
+	st.heap = keepSpecial(st.heap)
 	nr := make(map[int]*genRule, len(st.rules)+1)
 	for k, v := range st.rules {
 		nr[k] = v
@@ -190,9 +190,24 @@ func elemHeapName(t types.Type, suffix string) string {
 }
 
 // havocAll forgets everything about memory (an unknown callee ran).
+// bookkeeping entries of the state map that are not program memory
+func specialKey(k string) bool {
+	return strings.HasPrefix(k, "ITER|") || strings.HasPrefix(k, "VARIANT|") || strings.HasPrefix(k, "unroll:") || strings.HasPrefix(k, "callcount:")
+}
+
+func keepSpecial(old map[string]*Term) map[string]*Term {
+	n := map[string]*Term{}
+	for k, v := range old {
+		if specialKey(k) {
+			n[k] = v
+		}
+	}
+	return n
+}
+
 func (x *Exec) havocAll(st *State, why string) {
 	st.gen = x.nextGen()
-	st.heap = map[string]*Term{}
+	st.heap = keepSpecial(st.heap)
 	ntop := x.fresh("top", SInt)
 	x.assumeIn(st, mkCmp("<=", st.top, ntop))
 	st.top = ntop
